@@ -77,7 +77,44 @@ def gen_points(rng, n, mild=False):
     return [fl(p) for p in pts]
 
 
+def gen_pre(rng, scale):
+    """transformations applied to a point-based curve AFTER construction (a transformed curve is a curve: everything
+    the property says must hold for it with its current points; a shear changes the chord-length parameters)"""
+    out = []
+    for _ in range(rng.randint(1, 2)):
+        k = rng.choice(["shear", "shear", "shear", "translate", "rotate", "scale", "mirror"])
+        v = [rng.uniform(-1, 1) for _ in range(3)]
+        o = [rng.uniform(-1, 1) * scale for _ in range(3)]
+        if k == "translate":
+            out.append(["translate", [x * scale for x in v]])
+        elif k == "rotate":
+            out.append(["rotate", rng.uniform(-3, 3), v, o])
+        elif k == "scale":
+            out.append(["scale", rng.choice([0.5, 2.0, 3.0]), o])
+        elif k == "mirror":
+            out.append(["mirror", v, o])
+        else:
+            n = np.array(v) / np.linalg.norm(v)
+            d = np.cross(n, [rng.gauss(0, 1) for _ in range(3)])
+            out.append(["shear", fl(n), o, fl(d / np.linalg.norm(d)), rng.choice([-1.1, -0.7, 0.6, 0.9, 1.2])])
+    return out
+
+
+def with_pre(rng, spec):
+    """sometimes: construct from points0, transform, and describe the curve by the points it has afterwards"""
+    if rng.random() < 0.4:
+        spec = dict(spec, points0=spec["points"], pre=gen_pre(rng, float(np.max(np.abs(np.array(spec["points"]))))))
+        spec["points"] = [fl(p) for p in build(spec).array.points]
+    return spec
+
+
 def gen_spec(rng, kind):
+    if kind in ("discrete", "linear", "spline"):
+        return with_pre(rng, gen_spec_plain(rng, kind))
+    return gen_spec_plain(rng, kind)
+
+
+def gen_spec_plain(rng, kind):
     if kind == "discrete":
         return dict(kind=kind, points=gen_points(rng, rng.randint(3, 9)))
     if kind == "linear":
@@ -117,9 +154,29 @@ def gen_spec(rng, kind):
     raise ValueError(kind)
 
 
+def apply_pre(curve, pre):
+    for t in pre:
+        if t[0] == "translate":
+            curve.translate(t[1])
+        elif t[0] == "rotate":
+            curve.rotate(t[1], t[2], t[3])
+        elif t[0] == "scale":
+            curve.scale(t[1], t[2])
+        elif t[0] == "mirror":
+            curve.mirror(t[1], t[2])
+        elif t[0] == "shear":
+            curve.shear(t[1], t[2], t[3], t[4])
+        else:
+            raise ValueError(t[0])
+    return curve
+
+
 def build(spec):
     cb = _cb()
     k = spec["kind"]
+    if "pre" in spec:
+        # constructed from the original points, then transformed (spec["points"] = the points it has afterwards)
+        return apply_pre(build({kk: v for kk, v in dict(spec, points=spec["points0"]).items() if kk != "pre"}), spec["pre"])
     if k == "discrete":
         return cb.DiscreteCurve(spec["points"])
     if k == "linear":
